@@ -81,6 +81,7 @@ var emitted = map[string]bool{"&": true, "<": true, ">": true, "\"": true, "'": 
 // check runs every clause of the property on one input.
 func check(c *core.Ctx, s string, tok bool) {
 	c.Eval(1)
+	c.Note(func() interface{} { return kase{S: q(s)} })
 	var out string
 	if p := core.Recover(func() { out = safehtml.HTMLEscaped(s).String() }); p != nil {
 		c.Violation(kase{S: q(s)}, "HTMLEscaped panicked on %+q: %v", s, p)
@@ -216,6 +217,13 @@ var embeddings = []embedding{
 
 func checkConcat(c *core.Ctx, parts []string) {
 	c.Eval(1)
+	c.Note(func() interface{} {
+		k := kase{}
+		for _, p := range parts {
+			k.Concat = append(k.Concat, q(p))
+		}
+		return k
+	})
 	hs := make([]safehtml.HTML, len(parts))
 	want := ""
 	for i, p := range parts {
